@@ -64,12 +64,11 @@ func causeString(err error) string {
 
 // waits: how many reconnect periods fit in a gap; -1 if the gap is not close to a whole number of periods
 func waits(gap time.Duration) int {
+	// A timer never fires early, and everything a busy machine does to the run makes the measured gap LONGER - except that the
+	// moment the gap is measured from (the close event, or the failed attempt) is itself noticed a little late. So: up to 0.3
+	// periods short and up to 0.7 periods long of m periods counts as m waits.
 	x := float64(gap) / float64(lifePeriod)
-	m := math.Round(x)
-	if math.Abs(x-m) > 0.42 {
-		return -1
-	}
-	return int(m)
+	return int(math.Floor(x + 0.30))
 }
 
 // ---------------------------------------------------------------- serial: every attempt is visible
@@ -116,6 +115,7 @@ type serialScript struct {
 	k      int
 	log    *tmlog
 	doneCh chan struct{}
+	blockW bool // every port's Write blocks until the port is closed, and the read side fails only while a Write is in progress
 }
 
 var serialScripts sync.Map // device -> *serialScript
@@ -164,6 +164,10 @@ func lifeSerialOpen(device string, _ int) (io.ReadWriteCloser, error) {
 	} else {
 		c.endErr = trErr{i}
 	}
+	if ss.blockW {
+		c.blockAt = 0
+		c.endWaitWrite = true
+	}
 	return c, nil
 }
 
@@ -202,9 +206,9 @@ func renderTrace(evs []tev, t0 time.Time) string {
 	return strings.Join(out, "_")
 }
 
-func runLifeSerial(id int, script string) string {
+func runLifeSerial(id int, script string, blockW bool) string {
 	dev := fmt.Sprintf("/dev/life%d", id)
-	ss := &serialScript{script: parseSerialScript(script), log: &tmlog{}, doneCh: make(chan struct{})}
+	ss := &serialScript{script: parseSerialScript(script), log: &tmlog{}, doneCh: make(chan struct{}), blockW: blockW}
 	serialScripts.Store(dev, ss)
 	defer serialScripts.Delete(dev)
 	n := &gomavlib.Node{Endpoints: []gomavlib.EndpointConf{gomavlib.EndpointSerial{Device: dev, Baud: 57600}},
@@ -226,6 +230,10 @@ func runLifeSerial(id int, script string) string {
 					maxOpen = open
 				}
 				ss.log.add("O")
+				if blockW {
+					// something to write: the channel's writer enters the (blocking) Write of the port
+					go n.WriteMessageTo(ev.Channel, &common.MessageHeartbeat{Type: 1}) //nolint:errcheck
+				}
 			case *gomavlib.EventFrame:
 				ss.log.add("F")
 			case *gomavlib.EventChannelClose:
@@ -795,9 +803,15 @@ func implTnc(t []string) string {
 // ---------------------------------------------------------------- generator
 
 func implLifecheck(t []string) string {
+	return undisturbed(func() string { return implLifecheck1(t) })
+}
+
+func implLifecheck1(t []string) string {
 	switch t[1] {
 	case "serial":
-		return runLifeSerial(int(time.Now().UnixNano()%1000000), t[2])
+		return runLifeSerial(int(time.Now().UnixNano()%1000000), t[2], false)
+	case "serialbw":
+		return runLifeSerial(int(time.Now().UnixNano()%1000000), t[2], true)
 	case "tcpc":
 		return runLifeTcpc(t[2])
 	case "udpc":
@@ -859,8 +873,14 @@ func genC14(r *rngT, n int, tier string) {
 					toks = append(toks, fmt.Sprintf("o%d%c", r.Intn(5), "ez"[r.Intn(2)]))
 				}
 			}
-			jobs[i].op = "lifecheck serial " + strings.Join(toks, ",")
-			stat("c14-serial")
+			if i%5 == 1 {
+				// the same with a port whose Write is stuck when the read side fails
+				jobs[i].op = "lifecheck serialbw " + strings.Join(toks, ",")
+				stat("c14-serial-blocked-writer")
+			} else {
+				jobs[i].op = "lifecheck serial " + strings.Join(toks, ",")
+				stat("c14-serial")
+			}
 		case 2: // tcp client
 			var toks []string
 			for j := 0; j < 1+r.Intn(3); j++ {
@@ -905,8 +925,8 @@ func genC14(r *rngT, n int, tier string) {
 			defer wg.Done()
 			defer func() { <-sem }()
 			t := strings.Split(jobs[i].op, " ")
-			if t[1] == "serial" {
-				jobs[i].impl = runLifeSerial(i, t[2])
+			if t[1] == "serial" || t[1] == "serialbw" {
+				jobs[i].impl = undisturbed(func() string { return runLifeSerial(i, t[2], t[1] == "serialbw") })
 			} else {
 				jobs[i].impl = implLifecheck(t)
 			}
